@@ -303,6 +303,18 @@ fn ref_decode(s: &mut Stream, input: &[u8], chunks: &[usize]) -> Result<(Vec<u8>
     Ok((out, ended, s.total_in()))
 }
 
+/// Does the reference implementation read `bytes` as a complete, valid file of this format, and
+/// to what content? Used by C04 to recognise damage that turned one valid file into another
+/// valid file (duplicated or removed members, a torn write that left a complete other file).
+pub fn reference_reads(fmt: &str, multi: bool, bytes: &[u8]) -> Option<Vec<u8>> {
+    let flags = if multi || fmt == "lzip" { liblzma::stream::CONCATENATED } else { 0 };
+    let mut s = if fmt == "xz" { Stream::new_stream_decoder(u64::MAX, flags).ok()? } else { Stream::new_lzip_decoder(u64::MAX, flags).ok()? };
+    match ref_decode(&mut s, bytes, &[1 << 20]) {
+        Ok((out, true, _)) => Some(out),
+        _ => None,
+    }
+}
+
 fn ref_lzma_options(case: &Case) -> Result<LzmaOptions, String> {
     let o = &case.opt;
     let mut l = LzmaOptions::new_preset(case.knob_or("preset", 6).clamp(0, 9) as u32 | if case.knob("extreme") != 0 { liblzma::stream::PRESET_EXTREME } else { 0 }).map_err(|e| format!("{e:?}"))?;
